@@ -151,7 +151,7 @@ impl GBack {
     fn with<R>(&mut self, f: impl FnOnce(&mut Sessions) -> R) -> R {
         match self {
             GBack::Plain(s) => f(s),
-            GBack::Full(m) => m.with_state(|st| f(st.verif_sessions())),
+            GBack::Full(m) => m.with_state(|st| f(st.verif_sessions_mut())),
         }
     }
 }
